@@ -20,15 +20,18 @@
   model's state and the monitor's state, preserved by one model step followed by the monitor's
   steps on that step's observations).  The statement as first written is false
   (`judge_sound_statement_false`); the hypotheses of the corrected one (`NoSleep`, `Contract`)
-  are each shown necessary (`judge_needs_*`), and two clauses of the monitor were corrected
-  (`old_monitor_false_alarm_*`).
+  are each shown necessary (`judge_needs_*`), and three clauses of the monitor were corrected
+  (`old_monitor_false_alarm_*`; the third, "the absolute expiry of nng_aio_set_expire is one-shot",
+  replaced a clause of the contract: `expire_needs_no_reconfiguration`).
 -/
 import NngModel.Proofs.Aio
 import NngModel.Proofs.AioB
 import NngModel.Proofs.AioC
 import NngModel.Proofs.AioJudgeMain
 import NngModel.Proofs.AioJudgeTrace
+import NngModel.Proofs.AioJudgeSettled
 import NngModel.Proofs.AioJudgeOld
+import NngModel.Proofs.AioJudgeOld2
 namespace Nng.Props.C02
 open Nng.Aio Nng.AioSpec
 
@@ -368,12 +371,21 @@ theorem judge_needs_ordered_returns :
     Breaks [.skipArm, .subCall (.direct 0) false, .direct, .subCall (.direct 7) false, .subRet false 1] 3 := by
   decide
 
-/-- after an operation that used nng_aio_set_expire the next one is started without configuring the
-    timeout again: the aio falls back to the relative timeout, the monitor still expects the absolute one -/
-theorem judge_needs_expire_reconfigured :
-    Breaks [.setTimeout (.ms 3), .setExpire 30, .subCall (.direct 0) false, .direct, .subRet false 0, .pop, .cbRead,
-      .cbDone, .subCall .gen false, .prepare, .begin, .subRet true 1, .tick 4, .expScan, .expTake, .expCall, .finish,
-      .expRelease, .pop, .cbRead] 8 := by decide
+/-- NO LONGER a hypothesis (the contract used to demand that, after an operation that used
+    nng_aio_set_expire has finished, the timeout is configured again before the next start, because the
+    monitor kept the absolute expiry although `a_use_expire` is one-shot): the former witness of
+    `judge_needs_expire_reconfigured` — set_timeout 3, set_expire 30, an operation completed synchronously,
+    then an operation on the generic provider that times out at 4 — keeps to the contract and is accepted -/
+def expireNotReconfigured : List Label :=
+  [.setTimeout (.ms 3), .setExpire 30, .subCall (.direct 0) false, .direct, .subRet false 0, .pop, .cbRead,
+   .cbDone, .subCall .gen false, .prepare, .begin, .subRet true 1, .tick 4, .expScan, .expTake, .expCall, .finish,
+   .expRelease, .pop, .cbRead]
+
+theorem expire_needs_no_reconfiguration :
+    NoSleep expireNotReconfigured ∧ Contract Cfg.fixed {} {} expireNotReconfigured ∧
+    (run Cfg.fixed {} expireNotReconfigured).isSome = true ∧
+    (Nng.AioSpecOld2.judge (traceX Cfg.fixed {} {} expireNotReconfigured)).isSome = true ∧
+    judge (traceX Cfg.fixed {} {} expireNotReconfigured) = none := by decide
 
 /-- nng_aio_result after nng_aio_free -/
 theorem judge_needs_no_peek_after_free :
@@ -430,5 +442,77 @@ theorem old_monitor_false_alarm_peek_after_skip :
     (run Cfg.fixed {} peekAfterSkip).isSome = true ∧
     (Nng.AioSpecOld.judge (traceX Cfg.fixed {} {} peekAfterSkip)).isSome = true ∧
     judge (traceX Cfg.fixed {} {} peekAfterSkip) = none := by decide
+
+/-- the scenario corpus/C02/expire_flag_is_one_shot.json as an execution of the model: relative timeout 11,
+    absolute expiry 40 (as surv0_ctx_recv sets on the user's aio), the operation is completed by the
+    provider at 20; the next operation is started at 20 without touching the timeout and times out at 32
+    (relative timeout 11, strictly after 31).  The old monitor still held the absolute expiry 40
+    ("timeout: NNG_ETIMEDOUT before the configured duration"); `nni_aio_finish_impl` had cleared
+    `a_use_expire`, and so does the model (`finishCore`). -/
+def absExpireOneShot : List Label :=
+  [.setTimeout (.ms 11), .setExpire 40, .subCall .gen false, .prepare, .begin, .subRet true 1, .tick 20,
+   .complete 0, .finish, .pop, .cbRead, .peek, .cbDone, .peek,
+   .subCall .gen false, .prepare, .begin, .subRet true 1, .tick 12,
+   .expScan, .expTake, .expCall, .finish, .expRelease, .pop, .cbRead, .peek, .cbDone, .peek]
+
+theorem old_monitor_false_alarm_abs_expire :
+    NoSleep absExpireOneShot ∧ Contract Cfg.fixed {} {} absExpireOneShot ∧
+    (run Cfg.fixed {} absExpireOneShot).map (fun s => (s.starts, s.reported, s.result, s.now, s.useExpire))
+      = some (2, 2, ETIMEDOUT, 32, false) ∧
+    Nng.AioSpecOld2.judge (traceX Cfg.fixed {} {} absExpireOneShot)
+      = some "timeout: NNG_ETIMEDOUT before the configured duration" ∧
+    judge (traceX Cfg.fixed {} {} absExpireOneShot ++ [.settled, .quiet]) = none := by decide
+
+/-- the corrected clause is not vacuous the other way: a start that `nni_aio_start` REFUSES (here: the
+    absolute expiry 5 has passed at 6) does not consume the absolute expiry — the next operation is refused
+    with NNG_ETIMEDOUT again although the relative timeout is infinite, and the monitor accepts (it would
+    reject if it dropped the expiry at every report) -/
+def absExpireRefusedTwice : List Label :=
+  [.setExpire 5, .tick 6, .subCall .gen false, .prepare, .begin, .subRet true 0, .pop, .cbRead, .cbDone,
+   .subCall .gen false, .prepare, .begin, .subRet true 0, .pop, .cbRead, .cbDone]
+
+theorem refused_start_keeps_abs_expire :
+    NoSleep absExpireRefusedTwice ∧ Contract Cfg.fixed {} {} absExpireRefusedTwice ∧
+    (run Cfg.fixed {} absExpireRefusedTwice).map (fun s => (s.starts, s.reported, s.result, s.useExpire))
+      = some (2, 2, ETIMEDOUT, true) ∧
+    judge (traceX Cfg.fixed {} {} absExpireRefusedTwice ++ [.quiet]) = none := by decide
+
+/-- the clause "timer liveness" is sound for the model too: `traceS` is `traceX` with the observation
+    `settled` after every step that leaves the model in a settled state (`settledB`, Proofs/AioJudgeSettled.lean:
+    no internal step is enabled — no step of the expire thread, of a task thread or of a call in progress,
+    no return of a call; only the clock or a new call of the environment can move the system;
+    `settledB_complete`: the list of internal steps it tests misses none).  The harness makes this
+    observation when its main thread gets the baton back, i.e. when every other thread is blocked.
+    Proof: a parked operation always has somebody able to cancel it (`Inv5.holder`), and while its cancel
+    function is registered it is on the expire list iff it has a deadline (`Inv5.onq`); the monitor's upper
+    bound of the deadline (`RH.dlA/dlS/dlU`) then makes `expScan` enabled — not settled. -/
+theorem judge_sound_settled (ls : List Label) (s : State) (hn : NoSleep ls) (hc : Contract Cfg.fixed {} {} ls)
+    (hr : run Cfg.fixed {} ls = some s) : judge (traceS Cfg.fixed {} {} ls) = none :=
+  judge_accepts_settled ls s hn hc hr
+
+/-- `traceS` only adds `settled` observations to `traceX` -/
+theorem traceS_extends_traceX (ls : List Label) :
+    (traceS Cfg.fixed {} {} ls).filter (fun o => o != .settled) = traceX Cfg.fixed {} {} ls :=
+  traceS_filter Cfg.fixed ls {} {}
+
+/-- non-vacuity of the clause on the model: in the execution of `old_monitor_false_alarm_abs_expire` the
+    model is settled 9 times (e.g. while the first operation is parked before its expiry 40, and while the
+    second one is parked before 31), not settled once the second deadline has passed (time 32: the expire
+    thread's scan is enabled), and the monitor accepts the trace with these observations -/
+theorem settled_observed_in_sample :
+    (traceS Cfg.fixed {} {} absExpireOneShot).count .settled = 9 ∧
+    (run Cfg.fixed {} (absExpireOneShot.take 18)).map settledB = some true ∧
+    (run Cfg.fixed {} (absExpireOneShot.take 19)).map settledB = some false ∧
+    judge (traceS Cfg.fixed {} {} absExpireOneShot) = none := by decide
+
+/-- ... and the clause is not vacuous on implementation traces: the trace the
+    seeded fault C07-3A produces (`a_use_expire` left set: the second operation is never scheduled for
+    expiry) is rejected at the first settled point after the deadline 31 -/
+theorem settled_rejects_lost_timeout :
+    judge [.setTimeout (.ms 11), .setExpire 40, .subCall .gen, .tick 20, .subRet 1, .provDone 0 true, .cbBegin 0, .cbEnd,
+           .subCall .gen, .subRet 1, .settled, .tick 4, .settled, .tick 4, .settled, .tick 4, .settled]
+      = some "timeout: an operation is still pending after its deadline although nothing else can happen" ∧
+    judge [.setTimeout (.ms 11), .setExpire 40, .subCall .gen, .tick 20, .subRet 1, .provDone 0 true, .cbBegin 0, .cbEnd,
+           .subCall .gen, .subRet 1, .settled, .tick 4, .settled, .tick 4, .settled] = none := by decide
 
 end Nng.Props.C02
